@@ -36,11 +36,22 @@ READERS = ["df-csv", "df-json", "df-parquet", "lod-csv", "lod-json", "geojson"]
 ALIASES = ["read_csv", "read_json", "read_geojson", "read_npz", "read_parquet"]
 NAMES = ["a", "b", "c", "d", "e"]
 
-def _table(rng, n, ncol, csv_only=False):
+NESTED = [{"a": 10, "color": "red", "dim": {"w": 1, "b": 2}}, {"color": "blue", "c": [1, {"d": 2, "zz": 3}]}, {"b": "inner", "tags": {"x": 1}}, {}, {"e": None, "k": 1.5}]
+MIXEDNUM = [1, 1.0, True, 0, 0.0, False, 2.5, 1]
+
+def _table(rng, n, ncol, csv_only=False, json_only=None):
     """Plain-Python table: list of (name, kind, values) over int / digit-str / word-str / float / iso-date-str."""
     cols = []
     for name in rng.sample(NAMES, ncol):
-        kind = rng.choice(["int", "float", "word", "digits", "iso"] + (["intz"] if csv_only else []))
+        kind = rng.choice(["int", "float", "word", "digits", "iso"] + (["intz"] if csv_only else []) + (["nested", "nested"] if json_only else []) + (["mixednum"] if json_only == "lod" else []))
+        if kind == "nested":
+            # JSON objects as values, whose inner keys coincide with column names or not, at several depths
+            cols.append((name, kind, [json.loads(json.dumps(rng.choice(NESTED))) for _ in range(n)]))
+            continue
+        if kind == "mixednum":
+            # equal-but-different JSON numbers / booleans under one key
+            cols.append((name, kind, [rng.choice(MIXEDNUM) for _ in range(n)]))
+            continue
         if kind == "int": vals = [rng.choice([1, 2, 3, 10, -5, 0, 7]) for _ in range(n)]
         elif kind == "float": vals = [rng.choice([0.5, 1.25, -3.5, 2.0, 10.75]) for _ in range(n)]
         elif kind == "word": vals = [rng.choice(["x", "yy", "abc", "q r", "ünï"]) for _ in range(n)]
@@ -54,7 +65,12 @@ def generate(rng, tier):
     mode = rng.choice(["restrict", "alias"])
     n = rng.randint(1, 6)
     reader0 = rng.choice(READERS)
-    cols = _table(rng, n, rng.randint(2, 5), csv_only=(mode == "restrict" and reader0 == "df-csv"))
+    alias0 = rng.choice(ALIASES)
+    json_only = None
+    if rng.random() < 0.5:
+        if mode == "restrict" and reader0 in ("df-json", "lod-json"): json_only = "df" if reader0 == "df-json" else "lod"
+        if mode == "alias" and alias0 == "read_json": json_only = "lod"
+    cols = _table(rng, n, rng.randint(2, 5), csv_only=(mode == "restrict" and reader0 == "df-csv"), json_only=json_only)
     names = [c[0] for c in cols]
     case = {"mode": mode, "cols": cols, "writer": rng.choice(["library", "independent"]), "ragged": rng.getrandbits(16) if rng.random() < 0.4 else 0}
     if mode == "restrict":
@@ -70,9 +86,12 @@ def generate(rng, tier):
                 elif kind == "digits" and case["reader"] in ("df-json", "lod-json", "lod-csv", "geojson"): m[name] = "int"
                 elif kind == "iso" and case["reader"] in ("df-json", "geojson"): m[name] = "datetime64[D]"
                 elif kind == "float" and case["reader"].startswith("lod"): m[name] = "str"
+                elif kind == "mixednum": m[name] = "str"
         if case["ragged"] and case["reader"] in ("df-json", "geojson"):
             m = {}      # a cast of a column that also holds missing values is not one of the unambiguous casts
         case["map"] = m
+        if json_only and rng.random() < 0.4:
+            case["hook"] = True       # json.load keyword (object_hook) given to the full and to the restricted read alike
         if case["reader"] in ("df-csv", "lod-csv") and rng.random() < 0.3:
             case["sep"] = rng.choice([";", "\t", "|"])
         if case["reader"] in ("df-csv", "lod-csv") and rng.random() < 0.25:
@@ -83,7 +102,7 @@ def generate(rng, tier):
             case["subset"] = rng.sample(list(gnames), k)
             case["map"] = {}
     else:
-        alias = rng.choice(ALIASES)
+        alias = alias0
         case["alias"] = alias
         kw = {}
         def maybe(p=0.5): return rng.random() < p
@@ -186,6 +205,25 @@ def _as_mapping(obj):
         return [{k: canon.canon_obj(v) for k, v in dict.items(x)} for x in list.__iter__(obj)]
     return ("other", repr(obj))
 
+class Tagged(dict):
+    """What a user's object_hook may return."""
+    def __init__(self, obj=()):
+        super().__init__(obj)
+
+def _cv(v):
+    """Canonical value that also records which mapping class a nested JSON object came back as."""
+    if isinstance(v, dict):
+        return ("D", type(v).__name__ if isinstance(v, Tagged) else "dict", tuple((k, _cv(x)) for k, x in v.items()))
+    if isinstance(v, (list, tuple)):
+        return ("L", tuple(_cv(x) for x in v))
+    return canon.canon_obj(v)
+
+def _cells(column):
+    a = np.asarray(column)
+    if a.dtype == object:
+        return [_cv(x) for x in a.tolist()]
+    return canon.col_cells(column)
+
 def execute(case):
     import dataiter as di
     scratch = os.environ.get("VERIF_SCRATCH") or "/tmp"
@@ -207,6 +245,10 @@ def execute(case):
         res.cls(f"reader:{reader}")
         if reordered: res.cls("subset:reordered")
         if m: res.cls("map:nonempty")
+        jkw = {"object_hook": Tagged} if case.get("hook") else {}
+        if jkw: res.cls("restrict:json-kwargs")
+        if any(c[1] == "nested" for c in cols): res.cls("restrict:nested-json-values")
+        if any(c[1] == "mixednum" for c in cols): res.cls("restrict:equal-but-different-values")
         try:
             hdr = not case.get("noheader")
             if not hdr:
@@ -218,8 +260,8 @@ def execute(case):
                 got = di.DataFrame.read_csv(path, sep=sep, header=hdr, columns=list(sub), dtypes={k: TYPES.get(v, v) for k, v in m.items()})
             elif reader == "df-json":
                 path = os.path.join(d, "f.json"); _write(case, path, "json")
-                full = di.DataFrame.read_json(path)
-                got = di.DataFrame.read_json(path, columns=list(sub), dtypes={k: TYPES.get(v, v) for k, v in m.items()})
+                full = di.DataFrame.read_json(path, **jkw)
+                got = di.DataFrame.read_json(path, columns=list(sub), dtypes={k: TYPES.get(v, v) for k, v in m.items()}, **jkw)
             elif reader == "df-parquet":
                 path = os.path.join(d, "f.parquet"); _write(case, path, "parquet")
                 full = di.DataFrame.read_parquet(path)
@@ -234,8 +276,8 @@ def execute(case):
                 got = di.ListOfDicts.read_csv(path, sep=sep, header=hdr, keys=list(sub), types={k: TYPES[v] for k, v in m.items()})
             else:
                 path = os.path.join(d, "f.json"); _write(case, path, "json")
-                full = di.ListOfDicts.read_json(path)
-                got = di.ListOfDicts.read_json(path, keys=list(sub), types={k: TYPES[v] for k, v in m.items()})
+                full = di.ListOfDicts.read_json(path, **jkw)
+                got = di.ListOfDicts.read_json(path, keys=list(sub), types={k: TYPES[v] for k, v in m.items()}, **jkw)
         except Exception as e:
             res.violate(f"restrict:{reader}:raised:{exc_name(e)}", f"raised {e!r}; {ctx}")
             return res.dict()
@@ -246,8 +288,8 @@ def execute(case):
                 e = {k: v for k, v in dict.items(it) if k in keep}
                 for k, t in m.items():
                     if k in e: e[k] = TYPES[t](e[k])
-                exp.append({k: canon.canon_obj(v) for k, v in e.items()})
-            gotm = _as_mapping(got)
+                exp.append({k: _cv(v) for k, v in e.items()})
+            gotm = [{k: _cv(v) for k, v in dict.items(x)} for x in list.__iter__(got)]
             if gotm != exp:
                 kind = "values-under-wrong-key" if [sorted(map(repr, g.values())) for g in gotm] == [sorted(map(repr, e.values())) for e in exp] else "differs"
                 res.violate(f"restrict:{reader}:{kind}", f"restricted read {canon.short(gotm, 500)} expected {canon.short(exp, 500)}; {ctx}")
@@ -259,8 +301,8 @@ def execute(case):
                 if k in m:
                     t = TYPES.get(m[k], m[k])
                     colv = np.asarray(colv).astype(di.dtypes.string if t is str else t)
-                exp[k] = canon.col_cells(colv)
-            gotm = {k: canon.col_cells(v) for k, v in dict.items(got)}
+                exp[k] = _cells(colv)
+            gotm = {k: _cells(v) for k, v in dict.items(got)}
             if set(gotm) != set(exp):
                 res.violate(f"restrict:{reader}:wrong-column-set", f"columns {list(gotm)} expected {list(exp)}; {ctx}")
             else:
